@@ -102,6 +102,10 @@ def run(prop, tier, seed, replay=None):
         by_schema.setdefault(json.dumps(j["s"], sort_keys=True), []).append(s)
     step = 5 if tier == "quick" else 1
     keys = sorted(by_schema)[seed % step::step]
+    # always include the schemas whose values encode to zero bytes (empty block payloads)
+    keys += [k for k in sorted(by_schema) if k not in keys and (json.loads(k).get("k") == "null"
+             or (json.loads(k).get("k") == "record" and not json.loads(k).get("fields"))
+             or (json.loads(k).get("k") == "fixed" and json.loads(k).get("size") == 0))]
     lines = []
     for k in keys:
         lines += by_schema[k][:4]
